@@ -327,22 +327,30 @@ def run_opensmt(script_text, args=(), timeout=20, pipe=False, env_extra=None, bi
         env.update(env_extra)
     tmpd = os.path.join(BUILD, "tmp")
     os.makedirs(tmpd, exist_ok=True)
-    try:
-        if pipe:
-            p = subprocess.run([binary, "-p"] + list(args), input=script_text.encode(), stdout=subprocess.PIPE,
-                               stderr=subprocess.PIPE, timeout=timeout, env=env)
-        else:
-            path = os.path.join(tmpd, "s_%d_%d.smt2" % (os.getpid(), random.getrandbits(40)))
-            with open(path, "w") as f:
-                f.write(script_text)
-            try:
-                p = subprocess.run([binary] + list(args) + [path], stdout=subprocess.PIPE, stderr=subprocess.PIPE,
-                                   timeout=timeout, env=env)
-            finally:
-                os.remove(path)
-        return p.returncode, p.stdout.decode(errors="replace"), p.stderr.decode(errors="replace")
-    except subprocess.TimeoutExpired:
-        return -9, "", "timeout"
+    for attempt in range(40):
+        try:
+            if pipe:
+                p = subprocess.run([binary, "-p"] + list(args), input=script_text.encode(), stdout=subprocess.PIPE,
+                                   stderr=subprocess.PIPE, timeout=timeout, env=env)
+            else:
+                path = os.path.join(tmpd, "s_%d_%d.smt2" % (os.getpid(), random.getrandbits(40)))
+                with open(path, "w") as f:
+                    f.write(script_text)
+                try:
+                    p = subprocess.run([binary] + list(args) + [path], stdout=subprocess.PIPE, stderr=subprocess.PIPE,
+                                       timeout=timeout, env=env)
+                finally:
+                    os.remove(path)
+            if p.returncode == 126 and not p.stdout:     # "cannot execute": binary being relinked
+                time.sleep(0.5)
+                continue
+            return p.returncode, p.stdout.decode(errors="replace"), p.stderr.decode(errors="replace")
+        except subprocess.TimeoutExpired:
+            return -9, "", "timeout"
+        except OSError:
+            # the binary is being relinked by a concurrent incremental build (ETXTBSY / EACCES / ENOENT): wait and retry
+            time.sleep(0.5)
+    return -8, "", "binary not executable"
 
 
 def run_ref(solver, script_text, timeout=20):
